@@ -38,6 +38,12 @@ def run(chk):
         for e, txt in res["findings"][:2]:
             chk.report("packer:%s:%s" % (name, e.get("op")), "real chunk maker (%s, maxBytes=%s maxRecords=%s) step differs from Packer: %s" % (mode, mb, mr, json.dumps(e)[:700]),
                        {"event.json": e, "group": name})
+    # the worker that feeds the chunk makers: every passed record reaches every output's chunks once, in order, also across tick
+    # flushes and the stop flush (Worker.tla / WorkerTrace on the real LogProcessingWorker with two real Forward chunk makers)
+    import random
+    from checks import wkcommon
+    wn, wev = wkcommon.run(chk, random.Random(chk.seed + 5), thorough, "c11")
+    events += wev
     # chunk ids: unique, in creation order, for every behaviour of the wall clock (scripted through vhook.Clock)
     r = chk.tlc_mc("ChunkId", "ChunkId_quick.cfg", timeout=300)
     if not r["ok"]:
